@@ -55,10 +55,19 @@ def atoms_for(sel):
                 ("cmp", H, ("one", "kind"), "eq", ("enum", "A")), ("in", H, ("one", "n"), (0, 5))]
         out += [("join", H, ("back",), C, ("owner",)), ("cmp2", H, ("name",), "eq", I, ("s",)),
                 ("cmp2", H, ("one", "n"), "lt", I, ("n",))]
+        # text containment is case sensitive in Python and knows no wild cards; a relationship compared with an object
+        out += [("attr_contains_lit", H, ("name",), "H"), ("attr_contains_lit", H, ("name",), "_"),
+                ("attr_contains_lit", H, ("name",), "%"), ("lit_contains_attr", H, ("name",), "XH0Y"),
+                ("cmp_obj", H, ("one",), "eq", "i0"), ("cmp_obj", H, ("one",), "ne", "i0")]
     elif sel == I:
         out += [("cmp", I, ("n",), op, lit) for op in OPS for lit in (0, 1)]
         out += [("cmp", I, ("s",), "eq", "s0"), ("in", I, ("n",), (0, 2)), ("cmp", I, ("kind",), "ne", ("enum", "A"))]
         out += [("cmp2", I, ("n",), "lt", I, ("n",)), ("cmp2", I, ("n",), "eq", I, ("n",))]
+        # a nullable column (s is None for one item): SQL's three-valued logic versus Python's None
+        out += [("cmp", I, ("s",), "ne", "s0"), ("cmp", I, ("s",), "eq", None), ("cmp", I, ("s",), "ne", None),
+                ("in", I, ("s",), (None, "s0")), ("in", I, ("s",), ("s0", "zz")),
+                # membership in a set and in a range
+                ("in_set", I, ("n",), (0, 5)), ("in_range", I, ("n",), (0, 2))]
     elif sel == SI:
         out += [("cmp", SI, ("f",), "gt", 0.4), ("cmp", SI, ("n",), "le", 1)]
     return out
@@ -132,6 +141,7 @@ def cases(tier, seed):
 
 _ORM = [None]
 _QS = {}
+OBJS = [None]  # the objects of the database content under test, by node name (for atoms that mention an object)
 
 
 def init_worker():
@@ -163,6 +173,12 @@ def ref_atom(a, x, y):
         return bool(OPS[a[3]](walk(x, a[2]), lit(a[4])))
     if k == "in":
         return walk(x, a[2]) in lit(a[3])
+    if k == "in_set":
+        return walk(x, a[2]) in set(a[3])
+    if k == "in_range":
+        return walk(x, a[2]) in range(*a[3])
+    if k == "cmp_obj":
+        return (walk(x, a[2]) is OBJS[0][a[4]]) == (a[3] == "eq")
     if k == "lit_contains_attr":
         return walk(x, a[2]) in a[3]
     if k == "attr_contains_lit":
@@ -215,6 +231,12 @@ def build_query(sel, q, quant, objs_by_type, in_memory):
             return getattr(operator, a[3])(attr(x, a[2]), lit(a[4]))
         if k == "in":
             return in_(attr(x, a[2]), lit(a[3]))
+        if k == "in_set":
+            return in_(attr(x, a[2]), set(a[3]))
+        if k == "in_range":
+            return in_(attr(x, a[2]), range(*a[3]))
+        if k == "cmp_obj":
+            return getattr(operator, a[3])(attr(x, a[2]), OBJS[0][a[4]])
         if k == "lit_contains_attr":
             return contains(a[3], attr(x, a[2]))
         if k == "attr_contains_lit":
@@ -275,6 +297,7 @@ def run_case(case):
     qs, dbs = _QS[tier]
     spec = dbs[di]
     objs = ormgraphs.build(spec)
+    OBJS[0] = objs
     by_type = {}
     from models import ormmodel as M
     for o in objs.values():
@@ -407,6 +430,12 @@ def show(q):
             return f"x.{'.'.join(a[2])} {a[3]} {a[4]!r}"
         if a[0] == "in":
             return f"in_(x.{'.'.join(a[2])}, {list(a[3])})"
+        if a[0] == "in_set":
+            return f"in_(x.{'.'.join(a[2])}, {set(a[3])})"
+        if a[0] == "in_range":
+            return f"in_(x.{'.'.join(a[2])}, range{a[3]})"
+        if a[0] == "cmp_obj":
+            return f"x.{'.'.join(a[2])} {a[3]} <object {a[4]}>"
         if a[0] == "lit_contains_attr":
             return f"contains({a[3]!r}, x.{'.'.join(a[2])})"
         if a[0] == "attr_contains_lit":
